@@ -68,3 +68,33 @@ class ExternMixin:
         if z3.is_app(s) and s.decl().name() == 'str_of_int':
             return z3.BoolVal(True)
         return self.ufunc('all_ascii', SEQ, BOOL)(s)
+
+    # ---------------------------------------------------------------- X-DT: datetime
+    def dt_astimezone(self, recv, args, kw, node):
+        """X-DT: d.astimezone(utc) denotes the same instant in UTC; fields are in calendar ranges"""
+        t = self.ufunc('dt_utc', OPQ, OPQ)(recv.t)
+        r = SV('opq', t, 'datetime')
+        rng = {'year': (1, 9999), 'month': (1, 12), 'day': (1, 31), 'hour': (0, 23), 'minute': (0, 59), 'second': (0, 59),
+               'microsecond': (0, 999999)}
+        for f, (lo, hi) in rng.items():
+            x = self.ufunc(f'datetime_{f}', OPQ, INT)(t)
+            self.assume(z3.And(x >= lo, x <= hi))
+        return r
+
+    opq_methods = {'datetime.astimezone': lambda self, recv, args, kw, node: self.dt_astimezone(recv, args, kw, node)}
+
+    def bi_round(self, args, kw, node):
+        """X-ROUND: round(us / 1000) for an integer us: exact closed form (round-half-even on the exactly representable ties);
+        the closed form is validated exhaustively against CPython for 0 <= us < 10**6 by the axiom validator"""
+        a = args[0]
+        if a.k == 'opq' and z3.is_app(a.t) and a.t.decl().name() == 'fDiv':
+            x, y = a.t.arg(0), a.t.arg(1)
+            if z3.is_app(x) and x.decl().name() == 'of_int' and z3.is_app(y) and y.decl().name() == 'of_int' \
+                    and z3.is_int_value(z3.simplify(y.arg(0))) and z3.simplify(y.arg(0)).as_long() == 1000:
+                us = x.arg(0)
+                if not self.in_spec:
+                    self.oblige('axiom-domain[round]', z3.And(us >= 0, us < 1000000), node, aux=True)
+                q = us / 1000
+                r = us % 1000
+                return VI(z3.If(r < 500, q, z3.If(r > 500, q + 1, z3.If(q % 2 == 0, q, q + 1))))
+        return super().bi_round(args, kw, node)
